@@ -30,8 +30,7 @@ THEOREMS = [
     'IblVerif.C04.interrupted_then_forced_completes',
     'IblVerif.C04.not_np2_or_split_untouched',
     'IblVerif.C04.rerun_partial_folders_counterexample',
-    'IblVerif.C04.same_object_rerun_after_delete_counterexample',
-    'IblVerif.C04.np21_same_object_sorted_counterexample',
+    'IblVerif.C04.rerun_after_delete_noop',
 ]
 RULE = ('histories of 1..4 (thorough: ..5) calls, each either NP2Converter(file, post_check, delete_original, compress).process(overwrite) on a new '
         'object or (about half of the calls after the first) process(overwrite) once more on the SAME object, on a tiny '
@@ -51,9 +50,8 @@ ASSUMPTIONS = [
     'interruptions are Python exceptions raised at the call boundaries listed in RULE (not power loss between two syscalls); an interrupted '
     'compress_file leaves a .cbin_tmp and has not yet written the .ch (mtscomp writes the data file first)',
     'one converter object is live at a time (a new one replaces it) and every object uses the same window size; the file handed to a new '
-    'object is the original .bin, else the original .cbin, else the (missing) .bin path; never generated (known findings, demonstrated '
-    'separately): process(overwrite=True) on the object whose delete_NP24 already removed a .bin original (kills the interpreter); the lf '
-    'content written by an NP2.1 object after its own compress_NP21 re-opened the reader sorted is compared with the model but not demanded by the oracle; the already-split call is made only when shank 0\'s ap file and its .meta are complete',
+    'object is the original .bin, else the original .cbin, else the (missing) .bin path; a read through '
+    'the closed np.memmap of a deleted .bin (a segmentation fault; only reachable if the guard of process() is removed) is turned into an exception by the harness; the already-split call is made only when shank 0\'s ap file and its .meta are complete',
     'mtscomp compression is lossless and deterministic (checked: every .cbin met is decoded and compared with the expected bytes)',
     'the unfaithful split alters one AP (non-sync) sample (any row): check_NP24 compares the sync column of the first shank only; the model is told which processing window keeps the row and which verification window reads it (derived in the harness from the row)',
     'LF content is taken from an uninterrupted reference run of the same code (its correctness is C12); AP content, sizes of partially '
@@ -366,25 +364,6 @@ def obj_token(holder):
     return f"{int(bool(getattr(conv, 'check_completed', False)))}{int(bool(getattr(conv, 'already_exists', False)))}"
 
 
-def reader_reopened_sorted(holder):
-    """the live NP2.1 object's compress_NP21 has re-opened self.sr with the default sort=True (finding np21-same-object-sorted-reader)"""
-    conv = holder.get('conv')
-    if conv is None or conv.np_version != 'NP2.1':
-        return False
-    try:
-        return not np.array_equal(conv.sr.raw_channel_order, np.arange(conv.sr.nc))
-    except Exception:
-        return False
-
-
-def object_deleted_its_original(holder):
-    """the live object's delete_NP24 has closed self.sr and unlinked self.ap_file (finding same-object-rerun-after-delete)"""
-    conv = holder.get('conv')
-    if conv is None or conv.np_version != 'NP2.4' or getattr(conv, 'already_processed', False):
-        return False
-    return not conv.ap_file.exists()
-
-
 def _close_all(conv):
     try:
         conv.sr.close()
@@ -663,8 +642,6 @@ def effective_fault(rec, call):
 
 def oracle_step(root, rec, call, pre, res):
     """C04 stated on the disk after one call.  `pre` = facts recorded before the call.  None when it holds."""
-    if pre.get('excluded'):
-        return None     # known finding same-object-rerun-after-delete: process(overwrite=True) on an object that deleted its original
     why = recoverable(root, rec)
     if why:
         return why
@@ -680,10 +657,11 @@ def oracle_step(root, rec, call, pre, res):
     if not had:
         if call['sh']:
             pass
-        elif call.get('ru') and rec.kind == 'np24' and not call['ow']:
-            # the object that verified and deleted the original is asked again, without overwrite: nothing to do
+        elif call.get('ru') and rec.kind == 'np24':
+            # the object that verified and deleted the original is asked again (with or without overwrite): nothing to do
             if res != 'ret0' or snapshot(root) != pre['snap']:
-                return f'repeated run without overwrite (same object, original already deleted by it) ended with {res} / changed the disk'
+                return (f'process(overwrite={bool(call["ow"])}) on the object that already deleted the original ended with {res}'
+                        + (' and changed the disk' if snapshot(root) != pre['snap'] else '') + ', expected status 0 and no change')
             return None
         elif res != 'raise:noOriginal' or snapshot(root) != pre['snap']:
             return f'a call without an original ended with {res} / changed the disk'
@@ -707,8 +685,7 @@ def oracle_step(root, rec, call, pre, res):
     if not effective_fault(rec, call) and (call['ow'] or pre['no_output']):
         if res != 'ret1':
             return f'{"forced re-run" if call["ow"] else "first run"} without any fault ended with {res}, expected status 1'
-        # known finding np21-same-object-sorted-reader: the lf content of that class is not demanded
-        why = complete_valid(root, rec, bool(call['cp']), check_lf=not pre.get('sorted_reader'))
+        why = complete_valid(root, rec, bool(call['cp']))
         if why:
             return f'{"forced re-run" if call["ow"] else "first run"} did not end with a complete valid set: {why}'
     if res.startswith('raise:') and res not in ('raise:injected', 'raise:assertion', 'raise:noOriginal'):
@@ -809,11 +786,9 @@ def gen_call(rng, rec, state_tok, holder=None):
             c['sh'] = 1
     c['ru'] = 0
     if holder is not None and holder.get('conv') is not None and rng.random() < 0.5:
-        # the same converter object once more (its own options); never the excluded class of the known finding
+        # the same converter object once more (its own options)
         c['ru'] = 1
         c.update(holder['opts'])
-        if c['ow'] and object_deleted_its_original(holder):
-            c['ow'] = 0
     return c
 
 
@@ -839,12 +814,9 @@ def run_history(rec, orig, calls=None, rng=None, length=0, oracle=True):
             k += 1
             if call.get('ru') and holder.get('conv') is not None:
                 call.update(holder['opts'])
-            excluded = bool(call.get('ru') and call['ow'] and object_deleted_its_original(holder))
             pre = facts_before(root, rec) if oracle else None
             if pre is not None:
                 pre['target_complete'] = target_complete(state)
-                pre['excluded'] = excluded
-                pre['sorted_reader'] = bool(call.get('ru') and reader_reopened_sorted(holder))
             res = do_call(root, rec, call, holder)
             if not call.get('ru'):
                 holder['opts'] = dict(pc=call['pc'], cp=call['cp'], dl=call['dl'], sh=call['sh'])
@@ -886,8 +858,8 @@ def _tags(cfg, calls, toks):
         res, st = t.split('@', 1)
         tags.append('res=' + res.split('(')[0])
         tags.append('same-object' if c.get('ru') else 'fresh-object')
-        if res in ('raise:crash', 'raise:fileNotFound'):
-            tags.append('same-object-rerun-after-delete(known finding)')
+        if c.get('ru') and st.startswith('o=absent') and prev_state is not None and prev_state.startswith('o=absent'):
+            tags.append('same-object-after-its-delete' + ('-forced' if c['ow'] else ''))
         if c.get('ru') and c['ow']:
             tags.append('same-object-forced' + ('-after-interrupt' if prev_res and prev_res.startswith('raise:') else ''))
         tags.append('int=' + ('none' if c['int'] is None else c['int'][0]))
@@ -1029,7 +1001,7 @@ def staple_histories(ov):
         out.append((base, ['111000:d:-', '111101:-:1@0', '111101:-:-', '111001:-:-']))
         out.append((base, ['010000:c0:-', '010101:-:-', '010001:-:-']))
         out.append((dict(base, orig='cbin'), ['101000:-:-', '101001:-:-', '101101:-:-']))
-        if kind == 'np24':      # known finding same-object-rerun-after-delete (model and code agree; the oracle skips the excluded step)
+        if kind == 'np24':      # the object that deleted the original is asked again, with overwrite: status 0, nothing touched
             out.append((base, ['101000:-:-', '101101:-:-']))
             out.append((base, ['111000:-:-', '111001:-:-', '111101:-:-']))
     # known finding partial-folders-rerun: only some expected folders exist (model and code agree on what happens)
@@ -1126,8 +1098,6 @@ def _same_object_sequences(ov):
         cfg = dict(kind=kind, n=n, ns=1500, w=1200, ov=ov, orig='bin')
         for bits in range(8):
             b = f'{bits >> 2 & 1}{bits >> 1 & 1}{bits & 1}'
-            if kind == 'np24' and b[0] == '1' and b[2] == '1':
-                continue        # the object deletes the original in its first run: excluded class
             yield cfg, [f'{b}000:-:-', f'{b}001:-:-']
             yield cfg, [f'{b}000:-:-', f'{b}001:-:-', f'{b}101:-:-']
             yield cfg, [f'{b}000:-:-', f'{b}101:-:-']
@@ -1222,65 +1192,8 @@ def _demo_partial_folders():
         shutil.rmtree(root, ignore_errors=True)
 
 
-_SEGV_SCRIPT = r'''
-import sys, logging
-sys.path.insert(0, sys.argv[1]); sys.path.insert(0, sys.argv[2])
-logging.disable(logging.CRITICAL)
-from pathlib import Path
-from props import c04
-import neuropixel
-rec = c04.Rec.get('np24', 2, 1500, 1200, 576)
-root = Path(sys.argv[3])
-rec.materialise(root, 'bin')
-conv = neuropixel.NP2Converter(root / 'probe00' / (c04.STEM + '.ap.bin'), post_check=True, delete_original=True, compress=False)
-conv.init_params(nwindow=1200)
-assert conv.process() == 1
-print('FIRST-RUN-OK', c04.recoverable(root, rec), flush=True)
-conv.process(overwrite=True)
-print('SECOND-RUN-RETURNED', flush=True)
-'''
-
-
-def _demo_same_object_after_delete():
-    """conv.process() verifies and deletes the original (.bin); conv.process(overwrite=True) on the same object truncates every
-    shank file and the interpreter dies (closed memmap): nothing on disk holds the recording any more.  Run in a subprocess."""
-    import subprocess
-    import sys
-    rec = Rec.get('np24', 2, 1500, 1200, 576)
-    root = Path(tempfile.mkdtemp(prefix='c04g_'))
-    try:
-        shutil.rmtree(root)
-        p = subprocess.run([sys.executable, '-c', _SEGV_SCRIPT, str(Path(__file__).resolve().parents[1]), str(REPO / 'src'), str(root)],
-                           capture_output=True, text=True, timeout=300)
-        first_ok = 'FIRST-RUN-OK None' in p.stdout
-        return first_ok and 'SECOND-RUN-RETURNED' not in p.stdout and p.returncode != 0 and recoverable(root, rec) is not None
-    finally:
-        shutil.rmtree(root, ignore_errors=True)
-
-
-def _demo_np21_sorted_reader():
-    """NP2.1: process() compresses in place and re-opens the reader sorted; process(overwrite=True) on the same object returns 1
-    and writes an lf file that differs from the one a new object writes"""
-    rec = Rec.get('np21', 1, 1500, 1200, 576)
-    _, toks, _ = run_history(rec, 'bin', calls=[parse_call('010000:-:-'), parse_call('010101:-:-')], oracle=False)
-    root = Path(tempfile.mkdtemp(prefix='c04h_'))
-    try:
-        rec.materialise(root, 'bin')
-        holder = {}
-        r1 = do_call(root, rec, parse_call('010000:-:-'), holder)
-        r2 = do_call(root, rec, parse_call('010101:-:-'), holder)
-        bad = complete_valid(root, rec, True, check_lf=True)
-        if holder.get('conv') is not None:
-            _close_all(holder.pop('conv'))
-        return r1 == 'ret1' and r2 == 'ret1' and bad is not None and 'lf' in bad
-    finally:
-        shutil.rmtree(root, ignore_errors=True)
-
-
 def known_findings(ctx):
-    return {'partial-folders-rerun': _demo_partial_folders,
-            'same-object-rerun-after-delete': _demo_same_object_after_delete,
-            'np21-same-object-sorted-reader': _demo_np21_sorted_reader}
+    return {'partial-folders-rerun': _demo_partial_folders}
 
 
 def replay(ctx, rep):
